@@ -96,7 +96,7 @@ def directed_relay(cfg, res):
         for victim in range(nd):
           for tail in tails:
             v = dict(batch=batch, dyn=True, retries=retries, protocol='pickle')
-            c7.apply_variant(settings, v, 'consistent-hashing', 1)
+            ns.transport_hw = c7.apply_variant(settings, v, 'consistent-hashing', 1)
             s = rh.Seq(ns, c7.DESTS[:nd], receivers=2)
             evs = [('conn_made', i) for i in range(nd)] + [('pause', victim), ('fill', 0), ('adv_defer', 0), ('adv_defer', 0)]
             evs += [('conn_lost', victim)] + [('conn_failed', victim)] * retries + [(e, victim) for e in tail]
